@@ -91,6 +91,70 @@ def gen(rng, tier):
         yield "async %d 10 10 %s" % (cache, ",".join(steps))
 
 
+def gen_conf(rng, tier):
+    """histories with configuration requests (judged on the implementation's output alone, see confOracle in Drv/C13.lean):
+    ac = one request carrying a hash and a configuration request, cf = a configuration request alone; every history ends with
+    every timeout elapsed and enough runs to hand everything back"""
+    big = tier == "thorough"
+    DRAIN = lambda n: ["net:IO:y:p:-", "t:1000"] + ["run"] * (n + 4)   # noqa: E731
+    fixed = [
+        ["cf", "run", "srv:conf:0", "run", "run"],
+        ["cf", "run"],                                                     # never answered: receive timeout
+        ["cf", "run", "srv:conf:0", "srv:conf:0", "run", "run", "run"],    # answered twice before it is collected
+        ["cf", "run", "srv:conf:0", "run", "srv:conf:0", "run", "run"],    # answer, collected, then a pushed one
+        ["a", "cf", "run", "srv:conf:0", "run", "run", "srv:ok:0", "run"],
+        ["ac", "run", "srv:okc:0", "run", "run", "run"],
+        ["ac", "run", "srv:cok:0", "run", "run", "run"],
+        ["ac", "run", "srv:conf:0", "run", "srv:ok:0", "run", "run"],
+        ["a", "ac", "a", "run", "srv:ok:2", "srv:okc:1", "srv:ok:0", "run", "run", "run", "run", "run"],
+        ["ac", "run", "srv:okc:0", "run", "run", "ac", "run", "srv:cok:1", "run", "run", "run"],
+        ["ac", "run", "srv:okc:0", "run", "run", "cf", "run", "srv:conf:0", "run", "run"],
+        ["ac", "run", "srv:status:0:257", "srv:conf:0", "run", "run", "run"],
+        ["ac", "run", "srv:okc:0", "srv:conf:0", "run", "run", "run", "run"],
+        # the two recorded shapes
+        ["cf", "cf", "run", "srv:conf:0", "run", "run", "run"],
+        ["ac", "cf", "run", "srv:okc:0", "run", "run", "run"],
+        ["ac", "ac", "run", "srv:okc:0", "run", "run", "run", "srv:okc:1", "run", "run", "run"],
+        ["ac", "run", "srv:ok:0", "run", "run"],
+    ]
+    for f in fixed:
+        yield "async 16 10 10 %s" % ",".join(f + DRAIN(4))
+    for _ in range(60 if not big else 1500):
+        steps, nplain, conf_out, answered = [], 0, False, 0
+        for _ in range(rng.randrange(2, 25)):
+            r = rng.random()
+            if r < 0.2:
+                steps.append("a"); nplain += 1
+            elif r < 0.35 and not conf_out:
+                k = rng.choice(["ac", "cf"])
+                steps.append(k); conf_out = True
+                if k == "ac":
+                    nplain += 1
+            elif r < 0.6:
+                steps.append("run")
+            elif r < 0.75 and nplain:
+                steps.append("srv:ok:%d" % rng.randrange(nplain))
+            elif r < 0.9 and conf_out:
+                k = rng.choice(["conf", "okc", "cok"]) if nplain else "conf"
+                steps += ["srv:%s:%d" % (k, rng.randrange(max(1, nplain))), "run", "run"]
+                conf_out = False
+            elif r < 0.93:
+                steps.append("srv:conf:0")                # pushed
+            elif r < 0.96 and nplain:
+                steps.append("srv:status:%d:%d" % (rng.randrange(nplain), rng.choice(STATUS)))
+            else:
+                steps.append("t:%d" % rng.choice([1, 2, 6]))
+        if conf_out:
+            # a configuration asked for is answered before the history ends (a request carrying one whose answer never comes is the recorded shape)
+            steps += ["srv:conf:0", "run"]
+        yield "async 64 10 10 %s" % ",".join(steps + DRAIN(nplain + 2))
+
+
+def gen_all(rng, tier):
+    yield from gen(rng, tier)
+    yield from gen_conf(rng, tier)
+
+
 CONFIG = Config()
 CONFIG.pid = "C13"
 CONFIG.props_module = "KsiVerif.Props.C13"
@@ -106,7 +170,7 @@ def gen_h(rng, tier):
         yield "hrecv %s" % ".".join(p.hex() for p in ps)
 
 
-CONFIG.engines = [Engine("c13", ["exec_c13.c"], "drv_c13", gen, wraps=["time"]), Engine("c13h", ["exec_c13h.c"], "drv_c13", gen_h)]
+CONFIG.engines = [Engine("c13", ["exec_c13.c"], "drv_c13", gen_all, wraps=["time"]), Engine("c13h", ["exec_c13h.c"], "drv_c13", gen_h)]
 CONFIG.rule = ("the real signing async service (net_async.c) over the real async TCP client on a scripted socket and clock; the scripted "
                "server builds v2 PDUs with an independent TLV writer + OpenSSL HMAC. Schedules over {add, run, valid / status / stale-generation / "
                "unknown-id / bad-MAC / error-PDU / pushed-config / garbage reply for request k, peer close, poll errors, refused connection, "
